@@ -19,7 +19,7 @@ import (
 // registered for its UID and is listed there; a record that is not registered has no live session.
 
 type c17rOp struct {
-	K   string // connect connect|| upload-fails lateclose peerclose terminate upload exhaust topup connect+close connect+upload
+	K   string // connect connect|| upload-fails lateclose peerclose terminate upload exhaust topup connect+close connect+upload admin-edit
 	U   int
 	Sid uint32
 	I   int
@@ -50,7 +50,7 @@ func c17rRun(sc c17rCase) (vk.Result, error) {
 	}
 	var recs []rec
 	var sess []ses
-	staleOp, duringAuth, simultaneous, uploadFailed := false, false, false, false
+	staleOp, duringAuth, simultaneous, uploadFailed, adminEdit := false, false, false, false, false
 	fm.userYield = 300
 	cfg := mux.SessionConfig{Obfuscator: mux.Obfuscator{}, Valve: nil, Unordered: false}
 	var bk sync.Mutex // guards recs and sess while admissions run in parallel
@@ -218,6 +218,26 @@ func c17rRun(sc c17rCase) (vk.Result, error) {
 				fm.users[a].UpCredit = 1 << 50
 			}
 			fm.mu.Unlock()
+		case "admin-edit":
+			// an administrator changes the user's record in the database while the user may be active: other rates,
+			// another cap, a later expiry. The user stays authorised; whatever the server does with the new values, the
+			// user's live sessions stay with the one record the server knows
+			var a [16]byte
+			copy(a[:], c15UID(op.U%sc.Users))
+			fm.mu.Lock()
+			fu := fm.users[a]
+			switch op.I % 4 {
+			case 0:
+				fu.UpRate, fu.DownRate = int64(1<<20+op.I), int64(1<<21+op.I)
+			case 1:
+				fu.DownRate = int64(1<<22 + op.I)
+			case 2:
+				fu.Cap = 12 + op.I
+			case 3:
+				fu.Expiry = 1<<40 + int64(op.I)
+			}
+			fm.mu.Unlock()
+			adminEdit = true
 		}
 		synctest.Wait()
 		if err := check(phase); err != nil {
@@ -233,6 +253,9 @@ func c17rRun(sc c17rCase) (vk.Result, error) {
 	}
 	if uploadFailed {
 		res.Labels = append(res.Labels, "an-upload-round-failed")
+	}
+	if adminEdit {
+		res.Labels = append(res.Labels, "record-edited-by-an-administrator-meanwhile")
 	}
 	if duringAuth {
 		res.Labels = append(res.Labels, "session-end-reported-during-an-authorisation-query")
@@ -272,10 +295,12 @@ func TestVerif_C17_Records(t *testing.T) {
 				op.K = "upload"
 			case k < 88:
 				op.K = "upload-fails"
-			case k < 94:
+			case k < 92:
 				op.K = "exhaust"
-			default:
+			case k < 95:
 				op.K = "topup"
+			default:
+				op.K = "admin-edit"
 			}
 			sc.Ops = append(sc.Ops, op)
 		}
